@@ -197,6 +197,8 @@ def check_C10(tier: str, v: Verdict):
                      "types x matchers; distinct by (arrays, config, transformation); non-trivial = both sides non-empty")
     _sample(v, recs)
     validate_traces(v, "Trace_Eval", BASE + REL, recs, site_rel, what_fn=what_rel)
+    from .extras import extra_crop
+    extra_crop(v, tier)
     v.assumptions += ["TLC, CommunityModules", "the projection reads arrays by logical index, so layout is invisible to the specification, "
                       "which is the property; geometric invariance of the specification's operators is model-checked in MC_Rel"]
 
